@@ -1,7 +1,7 @@
 #!/bin/bash
 # developer helper: stop a running lib/runall.sh and its verifier processes
 [ -f /tmp/runall.pid ] && kill $(cat /tmp/runall.pid) 2>/dev/null
+[ -f /tmp/check.pid ] && kill $(cat /tmp/check.pid) 2>/dev/null
 sleep 0.5
-pkill -x python3 -f "check" 2>/dev/null
 pkill -x cbmc; pkill -x kissat; pkill -x cargo-kani; pkill -x kani-driver; pkill -x verus
-rm -f /tmp/runall.pid
+rm -f /tmp/runall.pid /tmp/check.pid
